@@ -372,4 +372,75 @@ PROPS["C09"] = {
     "timeout": {"quick": 200, "thorough": 1500},
 }
 
+PROPS["C15"] = {
+    "modules": ["Hertz.Props.C15"],
+    "rule": "Struct types built at run time with reflect.StructOf (1..6 fields; kinds bool, int/int8..64, uint/uint8..64, float32/64, string, "
+            "T, *T, **T, []T, []*T, *[]T; any subset of the tags path/form/query/cookie/header/json written in either order, names incl. empty and '-', "
+            "options required/omitempty/odd option strings; default tag) bound by the real binding.Bind from requests that place values in any subset "
+            "of path params, post args (API, urlencoded body or multipart body), query, cookies, headers (case variants of keys, repeated keys, empty "
+            "values) and a JSON body (typed, mistyped, null, duplicate and case-variant keys, six content-type spellings, truncated body); "
+            "bounded-exhaustive priority table for one int field and one []int8 field: every subset of the six tags x (none | one tag required) x "
+            "default or not x every subset of sources carrying a distinct value; cold/warm orders A B A on a session binder, then the global binder, "
+            "then a fresh binder; a malformed stream (hostile keys/values/option strings); batches of 16 goroutines binding 4 types on one cold binder.",
+    "exhaustive_note": "one-field priority table: 64 tag subsets x up to 7 'required' positions x default yes/no x 64 presence subsets "
+                       "(int field: all 57k cases in both tiers; []int8: every 7th in quick, all in thorough; *string: thorough); the rest is sampled",
+    "level_text": "Proved in Lean for all tag lists, requests and field types (no size bound) about the model of the two field decoders: the tags reach "
+                  "the decoder in the priority order path, form, query, cookie, header, json read from decoder/tag.go on every run "
+                  "(priority_matches_documented, tags_in_priority_order); the first consulted text source that carries the key decides and clears "
+                  "earlier 'required' errors (picks_first_present, _slice); the json tag, last, keeps the pre-bound value for any letter case of the JSON content type (json_value_kept; regressions ct_case_regression, slice_header_regression); "
+                  "a missing required value is an error whatever the other tags are (required_is_error, _slice; F12 regression f12_regression); a "
+                  "field nothing carries keeps zero or gets its default (default_kept_partial, _slice); the per-type decoder cache is transparent for "
+                  "every sequence of binds (pure_function). One statement is false of the code and kept as a decide-checked witness "
+                  "(default_kept_fails_at). The model is compared with the real Bind on every case, and a declarative "
+                  "spec (first named source in documented order that carries the key) is evaluated on the implementation's output.",
+    "level_note": "Partial. Trusted: Lean kernel, translator (tag order, SelectTextDecoder table, getter tables), harness/driver. Residue, sampled only: "
+                  "the sync.Map decoder cache and concurrent binds of the real code (the Lean cache is a list), JSON decoding (sonic; the body reaches the "
+                  "model as a member list), strconv.ParseFloat (three-valued classifier; unknown texts are copied from the implementation), multipart "
+                  "parsing. Open: refinement theorem model = declarative spec outside the known-finding classes (checked per case).",
+    "assumptions": ["64-bit platform (int/uint are 64 bits), default BindConfig (LooseZeroMode off, default tags on, sonic decoder, no custom type decoders)",
+                    "tag names and keys contain no '.', header tag names are not special header names (Host, Content-Type, Cookie, ...), ASCII content types",
+                    "the names encoding/json knows the fields by are pairwise distinct up to case; json:\"-\" carries no options",
+                    "top-level fields of the listed kinds only (no nested structs, maps, arrays, raw_body, file_name, vd)",
+                    "Args / cookie / header containers return what was put in (C17, C05); strconv and sonic are taken as they are"],
+    "timeout": {"quick": 120, "thorough": 1500},
+}
+
+PROPS["C18"] = {
+    "modules": ["Hertz.Props.C18"],
+    "rule": "Scenarios against a REAL server instance on a loopback TCP port (server.New + Run in a goroutine; standard and netpoll "
+            "transports): 1..6 client connections per scenario of the kinds busy across the shutdown call (handler ends shortly after / "
+            "long after the deadline), idle keep-alive (held open / closed by the client during the wait), mid-request (header block split "
+            "around the shutdown call), keep-alive with a late request after shutdown began, bursts of short requests, new connections "
+            "around and after the shutdown, hostile peers (garbage bytes, abrupt close); ExitWaitTimeout 5..3000 ms; 0..3 hooks fast / slow / "
+            "beyond the deadline; second Shutdown sequential or concurrent; Shutdown of a never-started engine; randomised timings "
+            "around the CAS instant; 12 fixed corner scenarios first; plus the deterministic race 'Shutdown between MarkAsRunning and Listen' and 150 (quick) / 400 (thorough) pairs of "
+            "simultaneous Shutdown calls released by a spin barrier. "
+            "Every observed event sequence (accept, handler entry/exit, complete response + Connection: close flag, client close/EOF, "
+            "dial results, Shutdown call/return/error, hook start/end, Run return; recorded under one lock, microsecond stamps) must be "
+            "accepted by the Lean interleaving model (search over the unobservable atomic steps; the witness is re-run with Hertz.Shutdown.run) "
+            "and must satisfy the trace spec Hertz.ShutdownSpec.violations.",
+    "level_text": "Proved in Lean for every action sequence of the interleaving model (any number of connections, callers, hooks, any exit wait): "
+                  "status never decreases; every Shutdown caller other than the one that won the CAS (sequential, racing, or on a non-running "
+                  "engine) returns errStatusNotRunning without any waiting phase; every started request is answered completely or still in flight and its next "
+                  "step is always enabled whatever the shutdown does; a response whose handler returned after the status flip carries "
+                  "Connection: close; past the spawn step all hooks are spawned and a return before the deadline has waited for all of them; "
+                  "if transport.Shutdown found the listener no connection is accepted afterwards; under prompt scheduling Shutdown returns "
+                  "within ExitWaitTimeout + one ticker period of its CAS; no phase of Shutdown can block for ever. One full-strength statement "
+                  "is false of the code and is proved negated on a concrete witness (Shutdown between MarkAsRunning and Listen leaves a "
+                  "listening server behind - reproduced on the real server on every run; known finding C18-shutdown-before-listen). The model is held to "
+                  "the code by regenerated constants / call order (model_matches_gen) and by trace validation against real servers; the trace spec "
+                  "is evaluated on the implementation's own event sequence.",
+    "level_note": "Partial: the interleaving model is hand-written at the granularity of atomic operations; the Go scheduler, the kernel's TCP "
+                  "state machine, netpoll's event loop, wall-clock bounds (checked with 1 s slack, retried once) and liveness under fairness are "
+                  "runtime residue. Trusted: Lean kernel, translator, harness/driver. Open: model-run => trace-spec theorem; ghost-free "
+                  "trace form of close_after_shutdown.",
+    "assumptions": ["the peer keeps reading (no write errors); IdleTimeout/ReadTimeout longer than the scenario",
+                    "no service registry (Deregister is the no-op registry); no hijacked connections; no TLS",
+                    "netpoll: modelled as tick = 0 and 'Shutdown closes connections that have not started a request'; its event loop is trusted",
+                    "wall-clock bounds carry 1 s scheduling slack and are re-tried once before being reported"],
+    "timeout": {"quick": 240, "thorough": 1500},
+    "search_timeout": 420,
+    "trusted": ["net/http response reader used by the test clients"],
+}
+
 NOT_CLAIMED = {}
